@@ -346,7 +346,7 @@ func (rp *reportingPlugin) buildReportFields(ctx context.Context, previousReport
 			// no previous observation timestamp available, e.g. in case of new
 			// feed; use current timestamp as start of range
 			rf.ValidFromTimestamp = rf.Timestamp
-		} else if maxFinalizedTimestamp+1 > math.MaxUint32 {
+		} else if maxFinalizedTimestamp >= math.MaxUint32 {
 			merr = errors.Join(err, fmt.Errorf("maxFinalizedTimestamp is too large, got: %d", maxFinalizedTimestamp))
 		} else {
 			rf.ValidFromTimestamp = uint32(maxFinalizedTimestamp + 1)
